@@ -36,6 +36,9 @@ def gen_case(case_seed, cfg):
     stratum = r.choice(["partition", "lineage", "lineage", "lineage"])
     absorb = r.random() < 0.3
     lm = le.gen_lineage_model(r, absorb=absorb)
+    if stratum == "partition":
+        lm["division2"] = None
+        lm["splitter2"] = None
     if stratum == "lineage" and lm["splitter"]["kind"] != "lineage":
         # the lineage simulator casts daughters to LineageVolumeCellState: only LineageVolumeSplitter produces those (the
         # other two splitters are exercised in the partition stratum)
@@ -172,6 +175,8 @@ def shrink(case):
             yield dict(case, lm=dict(lm, model=dict(m, reactions=m["reactions"][:i] + m["reactions"][i + 1:])))
     if lm.get("death"):
         yield dict(case, lm=dict(lm, death=None))
+    if lm.get("division2"):
+        yield dict(case, lm=dict(lm, division2=None, splitter2=None))
     if lm["npts"] > 5:
         yield dict(case, lm=dict(lm, npts=max(5, lm["npts"] // 2)))
     for s, v in m["init"].items():
@@ -212,7 +217,8 @@ def reach_warnings(stats):
               "mode_duplicate", "splitter_lineage", "splitter_general", "splitter_perfect_binomial", "div_rule_time",
               "div_rule_volume", "div_rule_deltav", "div_rule_general", "div_event", "growth_rule_linear",
               "growth_rule_multiplicative", "growth_rule_ode", "growth_event_linear", "growth_event_multiplicative",
-              "growth_event_general", "death_event", "death_rule_species", "safe_runs"):
+              "growth_event_general", "death_event", "death_rule_species", "safe_runs", "division_trigger_event",
+              "division_trigger_rule"):
         if stats.get(k, 0) == 0:
             out.append(f"kind {k} never fired in this batch")
     return out
